@@ -499,7 +499,13 @@ fn sweep_cases(seed: u64, tier: &str, bins: &Binaries, scratch: Option<&str>) ->
                 };
                 c.file_name = name.to_string();
                 c.note = format!("sweep/e2 file name {:?}", name);
-                out.push(Planned { case: c, stratum: "sweep-file-names" });
+                out.push(Planned { case: c.clone(), stratum: "sweep-file-names" });
+                for (cls, errno) in [("op", 13i64), ("op", 21), ("rf", 5), ("op", 36)] {
+                    let mut e = c.clone();
+                    e.events.push((cls.into(), "err".into(), errno));
+                    e.note = format!("sweep/e2 file name {:?}, {} fails with errno {}", name, cls, errno);
+                    out.push(Planned { case: e, stratum: "sweep-file-names" });
+                }
             }
         }
         let mut c = make_case("file-via-stdin", &lines, &content, &Cfg::default(), &mut rng, true);
@@ -876,7 +882,25 @@ fn normalised_log(o: &Observed) -> Vec<String> {
         }
     }
     norm.push_str(rest);
-    out.push(format!("stderr={:?}", norm));
+    // a message may name the input file, whose directory differs from worker slot to worker slot
+    let mut cleaned = String::new();
+    let mut r2 = norm.as_str();
+    while let Some(p) = r2.find("/simenv-") {
+        cleaned.push_str(&r2[..p]);
+        let tail = &r2[p..];
+        match tail.find("/w").filter(|i| tail[i + 2..].chars().take(2).all(|c| c.is_ascii_digit()) && tail.len() >= i + 4) {
+            Some(i) => {
+                cleaned.push_str("/simenv-PID/wNN");
+                r2 = &tail[i + 4..];
+            }
+            None => {
+                cleaned.push_str("/simenv-");
+                r2 = &tail[8..];
+            }
+        }
+    }
+    cleaned.push_str(r2);
+    out.push(format!("stderr={:?}", cleaned));
     out
 }
 
